@@ -247,6 +247,24 @@ func (d DataSpec) Generate() []byte {
 				pos += step
 			}
 		}
+	case kind == "tailrep":
+		// a short text whose end repeats an earlier piece: a match that ends within the last 0..14 bytes
+		// of the input (the exit paths of the match finders at the end of their input), in a block with
+		// few tokens, so that the match's length symbol occurs nowhere else
+		t := r.Intn(15)
+		l := r.Range(4, 60)
+		if n < l+t+8 {
+			out = r.Bytes(n)
+			break
+		}
+		for len(out) < n-l-t {
+			out = append(out, byte('a'+r.Intn(26)))
+		}
+		st := r.Intn(len(out) - l + 1)
+		out = append(out, out[st:st+l]...)
+		for len(out) < n {
+			out = append(out, byte('A'+r.Intn(26)))
+		}
 	case kind == "rnd":
 		out = r.Bytes(n)
 	case kind == "mix":
